@@ -81,7 +81,12 @@ def insertKnot [FloorRing K] (b : Basis K) (x0 : K) : PyM (Basis K × Mat K) :=
   let stop := b.stop
   let xw : PyM K :=
     if b.periodic ≥ 0 then
-      .ok (if x0 < start ∨ x0 > stop then pmod (x0 - start) (stop - start) + start else x0)
+      if x0 < start ∨ x0 > stop then
+        -- collapsed domain (end == start, only reachable after a faulty periodic insertion): the float
+        -- `% 0.0` is nan, bisect_right(knots, nan) = len(knots), the middle loop reads knots[len]
+        if stop - start = 0 then .error .index
+        else .ok (pmod (x0 - start) (stop - start) + start)
+      else .ok x0
     else if x0 < start ∨ stop < x0 then .error .value
     else .ok x0
   match xw with
